@@ -360,7 +360,17 @@ impl fmt::Display for IterableKind {
         let s = match self {
             IterableKind::Numbers(v) => format!("{:?}", v),
             IterableKind::Integers(v) => format!("{:?}", v),
-            IterableKind::Anys(v) => format!("{:?}", v),
+            // a mixed array lists its elements the way each is written as a literal
+            IterableKind::Anys(v) => format!(
+                "[{}]",
+                v.iter()
+                    .map(|p| match p {
+                        Primitive::Number(n) => format!("{:?}", n),
+                        other => other.to_string(),
+                    })
+                    .collect::<Vec<_>>()
+                    .join(", ")
+            ),
             IterableKind::PositiveIntegers(v) => format!("{:?}", v),
             IterableKind::Strings(v) => format!("{:?}", v),
             IterableKind::Edges(v) => format!("{:?}", v),
